@@ -42,6 +42,8 @@ func c07Class(err error) string {
 		return "err:already-committed"
 	case errors.Is(err, store.ErrMaxActiveTransactionsLimitExceeded):
 		return "err:max-active"
+	case errors.Is(err, store.ErrMaxConcurrencyLimitExceeded):
+		return "err:max-concurrency" // transient, see c07Retry: never sent to the model, never an oracle verdict
 	case errors.Is(err, store.ErrIllegalTruncationArgument):
 		return "err:illegal-truncation"
 	case errors.Is(err, store.ErrNewerVersionOrCorruptedData):
@@ -78,6 +80,62 @@ func c07Class(err error) string {
 		return "err:not-found"
 	}
 	return "err:other(" + err.Error() + ")"
+}
+
+// ------------------------------------------------------------------ transient back-pressure
+
+// store.ErrMaxConcurrencyLimitExceeded = "no free Tx holder in the pool of MaxConcurrency entries right now" (precommit
+// takes one and keeps it while it waits for tx ID-1; readers and proofs take one too). It says nothing about the
+// delivery - the caller has to repeat the call, as immudb's replicator does - and it depends on goroutine timing only
+// (seen under machine load), so it is neither an answer the model can predict nor a rejection: the harness repeats such
+// a call (bounded, short sleep) and only COUNTS the repetitions.
+const (
+	c07RetryMax   = 400
+	c07RetrySleep = 5 * time.Millisecond
+)
+
+func c07Transient(err error) bool { return errors.Is(err, store.ErrMaxConcurrencyLimitExceeded) }
+
+// c07Retry runs call until its error is not transient (at most c07RetryMax repetitions); it returns the last outcome
+// and the number of repetitions. Safe to use from several goroutines (touches nothing shared).
+func c07Retry[T any](call func() (T, error)) (res T, err error, retries int) {
+	for {
+		res, err = call()
+		if !c07Transient(err) || retries >= c07RetryMax {
+			return res, err, retries
+		}
+		retries++
+		time.Sleep(c07RetrySleep)
+	}
+}
+
+// c07CountRetries records repetitions caused by transient back-pressure (distribution counters only).
+func c07CountRetries(r *hx.Result, where string, retries int) {
+	if retries > 0 {
+		r.Count("transient.max-concurrency.deliveries-repeated." + where)
+		r.CountN("transient.max-concurrency.repetitions."+where, retries)
+	}
+}
+
+// c07GenuineRejected raises `genuine-export-rejected` for the answer to a delivery the replica had to accept. A transient
+// back-pressure answer is not a rejection (it has been reported by c07StillTransient if it never cleared).
+func c07GenuineRejected(r *hx.Result, ans, desc string, replay map[string]interface{}) {
+	if ans == "err:max-concurrency" {
+		r.Count("transient.max-concurrency.unresolved")
+		return
+	}
+	r.Fail("C07:replica:genuine-export-rejected", desc, replay)
+}
+
+// c07StillTransient: the back-pressure did not clear although the call was repeated for c07RetryMax*c07RetrySleep.
+// That is not a verdict on the export (so never `genuine-export-rejected`); with nothing else in flight it would mean
+// that Tx holders leaked from the pool, which is reported under its own signature.
+func c07StillTransient(r *hx.Result, ans, where string, replay map[string]interface{}) bool {
+	if ans != "err:max-concurrency" {
+		return false
+	}
+	r.Fail("C07:replica:back-pressure-never-clears", fmt.Sprintf("%s: ReplicateTx kept answering ErrMaxConcurrencyLimitExceeded for %v (%d repetitions)", where, time.Duration(c07RetryMax)*c07RetrySleep, c07RetryMax), replay)
+	return true
 }
 
 // ------------------------------------------------------------------ primary
@@ -278,12 +336,20 @@ type c07Rep struct {
 	seq       int
 	tainted   bool // an altered export has been precommitted at some point (it may come back after a reopen)
 	stripped  map[uint64]bool // ids for which a values-stripped (digest form) export was precommitted and discarded
+	maxConc   int             // MaxConcurrency (= size of the Tx holder pool) when > 8, see c07Concurrent
 }
 
 var c07NameSeq int
 
+// MaxConcurrency of the next replica opened by c07OpenReplica (0 = the default of 8)
+var c07NextMaxConc int
+
 func (rp *c07Rep) options() *store.Options {
-	o := store.DefaultOptions().WithSynced(rp.synced).WithMaxConcurrency(8).WithLogger(quietLogger()).
+	maxConc := 8
+	if rp.maxConc > maxConc {
+		maxConc = rp.maxConc
+	}
+	o := store.DefaultOptions().WithSynced(rp.synced).WithMaxConcurrency(maxConc).WithLogger(quietLogger()).
 		WithMaxActiveTransactions(rp.maxActive).WithMaxKeyLen(rp.maxKey).WithMaxValueLen(rp.maxVal).WithMaxTxEntries(rp.maxEnt).
 		WithExternalCommitAllowance(rp.ext).WithMaxWaitees(64)
 	if rp.synced {
@@ -296,7 +362,7 @@ func (rp *c07Rep) options() *store.Options {
 func c07OpenReplica(r *hx.Result, p *c07Prim, synced, ext bool, maxActive int) (*c07Rep, error) {
 	c07NameSeq++
 	rp := &c07Rep{r: r, name: fmt.Sprintf("r%d", c07NameSeq), dir: hx.TempDir("c07r"), synced: synced, ext: ext, maxActive: maxActive,
-		maxKey: p.maxKey, maxVal: p.maxVal, maxEnt: p.maxEnt, stripped: map[uint64]bool{}}
+		maxKey: p.maxKey, maxVal: p.maxVal, maxEnt: p.maxEnt, stripped: map[uint64]bool{}, maxConc: c07NextMaxConc}
 	st, err := store.Open(filepath.Join(rp.dir, "r"), rp.options())
 	if err != nil {
 		os.RemoveAll(rp.dir)
@@ -337,8 +403,9 @@ func (rp *c07Rep) corrState() string {
 }
 
 type c07Out struct {
-	ans string
-	hdr *store.TxHeader
+	ans     string
+	hdr     *store.TxHeader
+	retries int // repetitions after a transient back-pressure answer (c07Retry)
 }
 
 // replicateRaw calls the real ReplicateTx (panic-safe). For a Synced store the call returns only after a
@@ -354,13 +421,13 @@ func (rp *c07Rep) replicateRaw(b []byte, skip bool, timeout time.Duration) (out 
 				done <- c07Out{ans: "panic"}
 			}
 		}()
-		h, err := rp.st.ReplicateTx(ctx, b, skip, false)
+		h, err, n := c07Retry(func() (*store.TxHeader, error) { return rp.st.ReplicateTx(ctx, b, skip, false) })
 		if err != nil {
-			done <- c07Out{ans: c07Class(err)}
+			done <- c07Out{ans: c07Class(err), retries: n}
 			return
 		}
 		a := h.Alh()
-		done <- c07Out{ans: fmt.Sprintf("ok %d %s", h.ID, hx.Hex(a[:])), hdr: h}
+		done <- c07Out{ans: fmt.Sprintf("ok %d %s", h.ID, hx.Hex(a[:])), hdr: h, retries: n}
 	}()
 	if !rp.synced {
 		return <-done, ""
@@ -395,6 +462,10 @@ func (rp *c07Rep) deliver(b []byte, skip bool) c07Out {
 		timeout = 25 * time.Millisecond // the call may wait for tx id-1, which nobody delivers
 	}
 	out, syncedNow := rp.replicateRaw(b, skip, timeout)
+	c07CountRetries(rp.r, "sequential", out.retries)
+	if c07StillTransient(rp.r, out.ans, "sequential delivery", map[string]interface{}{"export": hx.Hex(b), "skip": skip}) {
+		return out // the call was never examined by the store: nothing to compare with the model
+	}
 	rp.r.Corr(fmt.Sprintf("c07 rep %s %s %s", rp.name, hx.Hex(b), b01(skip)), out.ans)
 	if syncedNow != "" {
 		rp.r.Corr("c07 sync "+rp.name, syncedNow)
@@ -1034,7 +1105,7 @@ func c07InOrder(r *hx.Result, rng *hx.Rng, p *c07Prim, synced, ext, skip bool) e
 		out := rp.deliver(p.exp[id], skip)
 		r.Eval(fmt.Sprintf("inorder:%s:%v:%v:%v:%d", p.label, synced, ext, skip, id), true)
 		if !strings.HasPrefix(out.ans, "ok ") {
-			r.Fail("C07:replica:genuine-export-rejected", fmt.Sprintf("in-order delivery of tx %d answered %s", id, out.ans), map[string]interface{}{"primary": p.label, "tx": id, "export": hx.Hex(p.exp[id])})
+			c07GenuineRejected(r, out.ans, fmt.Sprintf("in-order delivery of tx %d answered %s", id, out.ans), map[string]interface{}{"primary": p.label, "tx": id, "export": hx.Hex(p.exp[id])})
 			return nil
 		}
 		rp.checkTx(p, id, "in-order")
@@ -1095,7 +1166,7 @@ func c07Walk(r *hx.Result, rng *hx.Rng, p *c07Prim, synced bool, alterPerTx int,
 				continue
 			}
 			if !strings.HasPrefix(out.ans, "ok ") {
-				r.Fail("C07:replica:genuine-export-rejected", fmt.Sprintf("delivery of the next tx %d answered %s (state %s)", next, out.ans, before), map[string]interface{}{"primary": p.label, "tx": next})
+				c07GenuineRejected(r, out.ans, fmt.Sprintf("delivery of the next tx %d answered %s (state %s)", next, out.ans, before), map[string]interface{}{"primary": p.label, "tx": next})
 				return nil
 			}
 			rp.checkTx(p, next, "walk")
@@ -1204,7 +1275,14 @@ func c07Walk(r *hx.Result, rng *hx.Rng, p *c07Prim, synced bool, alterPerTx int,
 func c07Concurrent(r *hx.Result, rng *hx.Rng, p *c07Prim, ext bool) error {
 	r.NextCase()
 	maxActive := 3 + rng.Intn(6)
+	// A batch is up to 2*maxActive+1 simultaneous ReplicateTx calls, and every call that waits for its predecessor keeps a
+	// Tx holder of the pool (MaxConcurrency entries) while it waits: with the pool of 8 the other replicas use, the
+	// delivery everybody waits for can find the pool empty (ErrMaxConcurrencyLimitExceeded) and the waiting ones then sit
+	// there until their context ends. The pool of this replica holds a whole batch; what still is answered with the
+	// transient class (timing) is repeated, see c07Retry.
+	c07NextMaxConc = 2*maxActive + 2
 	rp, err := c07OpenReplica(r, p, false, ext, maxActive)
+	c07NextMaxConc = 0
 	if err != nil {
 		return err
 	}
@@ -1236,32 +1314,52 @@ func c07Concurrent(r *hx.Result, rng *hx.Rng, p *c07Prim, ext bool) error {
 			ids[i], ids[j] = ids[j], ids[i]
 		}
 		type res struct {
-			id  uint64
-			ans string
+			id      uint64
+			ans     string
+			retries int
 		}
 		results := make([]res, len(ids))
+		one := func(i int, id uint64) {
+			defer func() {
+				if x := recover(); x != nil {
+					results[i] = res{id, "panic", 0}
+				}
+			}()
+			ctx, cancel := context.WithTimeout(context.Background(), 60*time.Second)
+			defer cancel()
+			h, err, n := c07Retry(func() (*store.TxHeader, error) { return rp.st.ReplicateTx(ctx, p.exp[id], false, false) })
+			if err != nil {
+				results[i] = res{id, c07Class(err), results[i].retries + n}
+				return
+			}
+			a := h.Alh()
+			results[i] = res{id, fmt.Sprintf("ok %d %s", h.ID, hx.Hex(a[:])), results[i].retries + n}
+		}
 		var wg sync.WaitGroup
 		for i, id := range ids {
 			wg.Add(1)
 			go func(i int, id uint64) {
 				defer wg.Done()
-				defer func() {
-					if x := recover(); x != nil {
-						results[i] = res{id, "panic"}
-					}
-				}()
-				ctx, cancel := context.WithTimeout(context.Background(), 60*time.Second)
-				defer cancel()
-				h, err := rp.st.ReplicateTx(ctx, p.exp[id], false, false)
-				if err != nil {
-					results[i] = res{id, c07Class(err)}
-					return
-				}
-				a := h.Alh()
-				results[i] = res{id, fmt.Sprintf("ok %d %s", h.ID, hx.Hex(a[:]))}
+				one(i, id)
 			}(i, id)
 		}
 		wg.Wait()
+		// a delivery that was only ever answered with the transient back-pressure class has not been examined by the
+		// store yet: it is made again now that nothing else is in flight (ascending ids: each finds its predecessor)
+		var again []int
+		for i := range results {
+			if results[i].ans == "err:max-concurrency" {
+				again = append(again, i)
+			}
+		}
+		sort.SliceStable(again, func(a, b int) bool { return results[again[a]].id < results[again[b]].id })
+		for _, i := range again {
+			r.Count("transient.max-concurrency.redelivered-after-batch")
+			one(i, results[i].id)
+		}
+		for _, x := range results {
+			c07CountRetries(r, "concurrent", x.retries)
+		}
 		// linearisation: the accepted deliveries in id order, then every other one (they all found the tx already there)
 		sort.SliceStable(results, func(a, b int) bool {
 			oa, ob := strings.HasPrefix(results[a].ans, "ok "), strings.HasPrefix(results[b].ans, "ok ")
@@ -1271,14 +1369,22 @@ func c07Concurrent(r *hx.Result, rng *hx.Rng, p *c07Prim, ext bool) error {
 			return results[a].id < results[b].id
 		})
 		accepted := map[uint64]int{}
+		unresolved := false
 		for _, x := range results {
+			if c07StillTransient(r, x.ans, "concurrent batch, repeated alone afterwards", map[string]interface{}{"primary": p.label, "tx": x.id}) {
+				unresolved = true // never examined by the store: nothing to compare with the model
+				continue
+			}
 			r.Corr(fmt.Sprintf("c07 rep %s %s 0", rp.name, hx.Hex(p.exp[x.id])), x.ans)
 			if strings.HasPrefix(x.ans, "ok ") {
 				accepted[x.id]++
 			} else if x.ans != "err:already-committed" {
-				r.Fail("C07:replica:genuine-export-rejected", fmt.Sprintf("concurrent delivery of tx %d answered %s", x.id, x.ans), map[string]interface{}{"primary": p.label, "tx": x.id})
+				c07GenuineRejected(r, x.ans, fmt.Sprintf("concurrent delivery of tx %d answered %s", x.id, x.ans), map[string]interface{}{"primary": p.label, "tx": x.id})
 			}
 			r.Count("concurrent.answer." + strings.SplitN(x.ans, " ", 2)[0])
+		}
+		if unresolved {
+			return nil // reported above; the scenario cannot go on
 		}
 		r.OracleChecks++
 		for i := 1; i <= w; i++ {
@@ -1346,7 +1452,7 @@ func c07Durable(r *hx.Result, rng *hx.Rng, p *c07Prim) error {
 	for id := uint64(1); id <= p.n && id <= 8; id++ {
 		out := rp.deliver(p.exp[id], false)
 		if !strings.HasPrefix(out.ans, "ok ") {
-			r.Fail("C07:replica:genuine-export-rejected", "synced replica: "+out.ans, map[string]interface{}{"primary": p.label, "tx": id})
+			c07GenuineRejected(r, out.ans, "synced replica: "+out.ans, map[string]interface{}{"primary": p.label, "tx": id})
 			return nil
 		}
 		did, dalh := rp.st.PrecommittedAlh()
